@@ -5,6 +5,7 @@ package main
 
 import (
 	"fmt"
+	"strconv"
 	"math/big"
 	"regexp"
 	"sort"
@@ -38,17 +39,17 @@ var (
 	sortIface  = &Sort{K: SIface}
 	sortFloat  = &Sort{K: SFloat}
 	sortOpaque = &Sort{K: SOpaque}
-	bvSorts    = map[int]*Sort{}
 )
 
-func bvSort(w int) *Sort {
-	if s, ok := bvSorts[w]; ok {
-		return s
+var bvSortTab = func() [513]*Sort {
+	var t [513]*Sort
+	for w := 1; w <= 512; w++ {
+		t[w] = &Sort{K: SBV, W: w}
 	}
-	s := &Sort{K: SBV, W: w}
-	bvSorts[w] = s
-	return s
-}
+	return t
+}()
+
+func bvSort(w int) *Sort { return bvSortTab[w] }
 
 func arraySort(idx, elem *Sort) *Sort { return &Sort{K: SArray, Idx: idx, Elem: elem} }
 
@@ -93,6 +94,13 @@ var (
 )
 
 func bvLit(w int, v *big.Int) Term {
+	if v.IsInt64() {
+		return bvLitI(w, v.Int64())
+	}
+	return bvLitBig(w, v)
+}
+
+func bvLitBig(w int, v *big.Int) Term {
 	m := new(big.Int).Lsh(big.NewInt(1), uint(w))
 	x := new(big.Int).Mod(v, m)
 	if x.Sign() < 0 {
@@ -104,7 +112,24 @@ func bvLit(w int, v *big.Int) Term {
 	return Term{fmt.Sprintf("(_ bv%s %d)", x.String(), w), bvSort(w)}
 }
 
-func bvLitI(w int, v int64) Term { return bvLit(w, big.NewInt(v)) }
+func bvLitI(w int, v int64) Term {
+	if w <= 64 && w%4 == 0 {
+		u := uint64(v)
+		if w < 64 {
+			u &= (uint64(1) << uint(w)) - 1
+		}
+		const hex = "0123456789abcdef"
+		n := w / 4
+		buf := make([]byte, 2+n)
+		buf[0], buf[1] = '#', 'x'
+		for i := n - 1; i >= 0; i-- {
+			buf[2+i] = hex[u&15]
+			u >>= 4
+		}
+		return Term{string(buf), bvSort(w)}
+	}
+	return bvLitBig(w, big.NewInt(v))
+}
 
 // constant value of a literal term, if it is one
 func litValue(t Term) (*big.Int, bool) {
@@ -148,6 +173,7 @@ type Assume struct {
 
 type Oblig struct {
 	Name  string // full obligation name
+	Label string // clause label (explicit obligations) or source text (implicit ones)
 	Kind  string
 	Fn    string
 	Seq   int  // assumptions with Seq < this are in scope
@@ -163,6 +189,8 @@ type Oblig struct {
 	Output   string
 	Expect   string // "" normal; "sat" for vacuity covers
 	SMTBytes int
+	SMTFile  string
+	Retried  bool
 	KnownInside *KnownFinding // this instance is the obligation restricted to a known finding's carve-out
 }
 
@@ -180,16 +208,64 @@ type Ctx struct {
 	preamble []string        // spec library text (define-funs)
 	dry      bool
 	quiet    int // >0 while evaluating spec expressions: no obligations, no assumptions
+	revealed map[string]bool
+	revealedApp map[string]Term
+	symOfConst  map[string]string
+	storeInfo map[string]accessInfo
+	selInfo   map[string]accessInfo
+	iteInfo   map[string]iteInfoT
+	constInfo map[string]Term
+	axioms   []Axiom
+	tables   map[string]*Table
+	groundFn func(key string) (interface{}, bool)
+	ufGlobals func(key string) bool
+	funDecls map[string]string
 	counters map[string]int
 }
 
 func newCtx() *Ctx {
-	return &Ctx{defIdx: map[string]*Def{}, memo: map[string]Term{}, strLits: map[string]Term{}, initial: map[string]Term{}, counters: map[string]int{}}
+	return &Ctx{defIdx: map[string]*Def{}, memo: map[string]Term{}, strLits: map[string]Term{}, initial: map[string]Term{}, counters: map[string]int{}, tables: map[string]*Table{}, revealed: map[string]bool{}, revealedApp: map[string]Term{}, symOfConst: map[string]string{},
+		storeInfo: map[string]accessInfo{}, selInfo: map[string]accessInfo{}, iteInfo: map[string]iteInfoT{}, constInfo: map[string]Term{}}
 }
 
 var nameRe = regexp.MustCompile(`\bk[0-9]+_[A-Za-z0-9_.]*|\bv[0-9]+\b|\b[hgs]_[A-Za-z0-9_.$]+`)
 
 func (c *Ctx) nextSeq() int { c.seq++; return c.seq }
+
+// scanNames extracts the identifiers of a term text that may be defined names (v<n>, k<n>_..,
+// h_.., g_.., s_..) and spec function symbols, without regular expressions
+func scanNames(text string) []string {
+	var out []string
+	i := 0
+	n := len(text)
+	for i < n {
+		ch := text[i]
+		if ch == '(' || ch == ')' || ch == ' ' {
+			i++
+			continue
+		}
+		j := i
+		for j < n && text[j] != '(' && text[j] != ')' && text[j] != ' ' {
+			j++
+		}
+		tok := text[i:j]
+		i = j
+		if len(tok) < 2 {
+			continue
+		}
+		switch tok[0] {
+		case 'v', 'k':
+			if tok[1] >= '0' && tok[1] <= '9' {
+				out = append(out, tok)
+			}
+		case 'h', 'g', 's':
+			if tok[1] == '_' || strings.HasPrefix(tok, "spec_") {
+				out = append(out, tok)
+			}
+		}
+	}
+	return out
+}
 
 // def introduces a named definition (hash-consed)
 func (c *Ctx) def(s *Sort, body string) Term {
@@ -201,8 +277,8 @@ func (c *Ctx) def(s *Sort, body string) Term {
 		return t
 	}
 	c.n++
-	name := fmt.Sprintf("v%d", c.n)
-	d := &Def{Name: name, Sort: s, Body: body}
+	name := "v" + strconv.Itoa(c.n)
+	d := &Def{Name: name, Sort: s, Body: body, deps: scanNames(body)}
 	c.defs = append(c.defs, d)
 	c.defIdx[name] = d
 	t := Term{name, s}
@@ -258,12 +334,57 @@ func (c *Ctx) assume(t Term, note string) {
 	c.assumes = append(c.assumes, Assume{Seq: c.nextSeq(), T: t, Note: note})
 }
 
+// axiom: a definitional fact (instance of a spec function definition); always in scope
+func (c *Ctx) axiom(app, sym string, t Term) {
+	if t.S == "true" {
+		return
+	}
+	c.axioms = append(c.axioms, Axiom{app, sym, t})
+}
+
+type Axiom struct {
+	App string // name of the application term this axiom defines
+	Sym string // function symbol (spec_<name>)
+	T   Term
+}
+
+var specSymRe = regexp.MustCompile(`\bspec_[A-Za-z0-9_]+`)
+
+// conjuncts splits a goal that is a top-level conjunction
+func (c *Ctx) conjuncts(t Term) []Term {
+	d, ok := c.defIdx[t.S]
+	if !ok || !strings.HasPrefix(d.Body, "(and ") {
+		return []Term{t}
+	}
+	var out []Term
+	for _, f := range strings.Fields(d.Body[5 : len(d.Body)-1]) {
+		sub := Term{f, sortBool}
+		if _, isDef := c.defIdx[f]; !isDef && f != "true" && f != "false" {
+			return []Term{t}
+		}
+		out = append(out, c.conjuncts(sub)...)
+	}
+	return out
+}
+
 func (c *Ctx) oblige(o *Oblig) {
 	if c.dry || c.quiet > 0 {
 		return
 	}
 	o.Seq = c.nextSeq()
 	c.obligs = append(c.obligs, o)
+}
+
+func (c *Ctx) declareFun(name string, argSorts []string, res *Sort) {
+	if c.funDecls == nil {
+		c.funDecls = map[string]string{}
+	}
+	if _, ok := c.funDecls[name]; ok {
+		return
+	}
+	decl := fmt.Sprintf("(declare-fun %s (%s) %s)", name, strings.Join(argSorts, " "), res)
+	c.funDecls[name] = decl
+	c.preamble = append(c.preamble, decl)
 }
 
 func (c *Ctx) strLit(s string) Term {
@@ -358,7 +479,11 @@ func (c *Ctx) ite(cond, a, b Term) Term {
 	if a.S == b.S {
 		return a
 	}
-	return c.app(a.Sort, "ite", cond, a, b)
+	t := c.app(a.Sort, "ite", cond, a, b)
+	if a.Sort.K == SArray {
+		c.iteInfo[t.S] = iteInfoT{cond, a, b}
+	}
+	return t
 }
 
 func (c *Ctx) eq(a, b Term) Term {
@@ -383,15 +508,84 @@ func (c *Ctx) sel(a, i Term) Term {
 	if a.Sort.K != SArray {
 		panic("select on non-array " + a.S + " : " + a.Sort.String())
 	}
-	return c.app(a.Sort.Elem, "select", a, i)
+	if t, ok := c.selTable(a, i); ok {
+		return t
+	}
+	if d, ok := c.defIdx[a.S]; ok && d.Body != "" {
+		switch {
+		case strings.HasPrefix(d.Body, "(store "):
+			// select over store with literal indices folds syntactically
+			if info, ok := c.storeInfo[a.S]; ok {
+				if iv, ok1 := litValue(i); ok1 {
+					if jv, ok2 := litValue(info.idx); ok2 {
+						if iv.Cmp(jv) == 0 {
+							return info.val
+						}
+						return c.sel(info.base, i)
+					}
+				}
+				if info.idx.S == i.S {
+					return info.val
+				}
+				// literal query index over a store at a symbolic index: case split into an ite
+				if _, lit := litValue(i); lit {
+					return c.ite(c.eq(info.idx, i), info.val, c.sel(info.base, i))
+				}
+			}
+		case strings.HasPrefix(d.Body, "(ite "):
+			if info, ok := c.iteInfo[a.S]; ok {
+				if _, lit := litValue(i); lit {
+					return c.ite(info.cond, c.sel(info.a, i), c.sel(info.b, i))
+				}
+			}
+		case strings.HasPrefix(d.Body, "((as const "):
+			if v, ok := c.constInfo[a.S]; ok {
+				return v
+			}
+		case strings.HasPrefix(d.Body, "(select "):
+			// column of a constant 2-D table: T[x][lit]  ==>  Tcol_lit[x]
+			if info, ok := c.selInfo[a.S]; ok {
+				if tb, isT := c.tables[info.base.S]; isT {
+					if iv, lit := litValue(i); lit && iv.IsInt64() {
+						if col, ok := c.columnTable(info.base, tb, int(iv.Int64())); ok {
+							return c.sel(col, info.idx)
+						}
+					}
+				}
+			}
+		}
+	}
+	t := c.app(a.Sort.Elem, "select", a, i)
+	if a.Sort.Elem.K == SArray {
+		c.selInfo[t.S] = accessInfo{base: a, idx: i}
+	}
+	return t
 }
 
+type accessInfo struct {
+	base, idx, val Term
+}
+
+type iteInfoT struct{ cond, a, b Term }
+
 func (c *Ctx) store(a, i, v Term) Term {
-	return c.app(a.Sort, "store", a, i, v)
+	// store over store at the same literal index: drop the inner one
+	if info, ok := c.storeInfo[a.S]; ok {
+		if iv, ok1 := litValue(i); ok1 {
+			if jv, ok2 := litValue(info.idx); ok2 && iv.Cmp(jv) == 0 {
+				a = info.base
+			}
+		}
+	}
+	t := c.app(a.Sort, "store", a, i, v)
+	c.storeInfo[t.S] = accessInfo{base: a, idx: i, val: v}
+	return t
 }
 
 func (c *Ctx) constArray(s *Sort, v Term) Term {
-	return c.def(s, fmt.Sprintf("((as const %s) %s)", s, v.S))
+	t := c.def(s, fmt.Sprintf("((as const %s) %s)", s, v.S))
+	c.constInfo[t.S] = v
+	return t
 }
 
 func (c *Ctx) zero(s *Sort) Term {
@@ -421,42 +615,143 @@ func (c *Ctx) zero(s *Sort) Term {
 
 // emit writes the SMT-LIB text for one obligation, restricted to the cone of influence.
 func (c *Ctx) emit(o *Oblig, logic string) string {
+	t, _ := c.emitMany([]*Oblig{o}, false)
+	return t
+}
+
+// emitBoth renders the relevance-filtered query and, when the filter dropped a definition,
+// the complete one as well (used as the fallback before anything is reported)
+func (c *Ctx) emitBoth(o *Oblig) (filtered string, full string) {
+	t, dropped := c.emitMany([]*Oblig{o}, false)
+	if !dropped {
+		return t, ""
+	}
+	f, _ := c.emitMany([]*Oblig{o}, true)
+	return t, f
+}
+
+// emitMany writes one query that proves all the given obligations (each under exactly the
+// assumptions that are in scope for it).
+func (c *Ctx) emitMany(os []*Oblig, allAxioms bool) (string, bool) {
+	minSeq := os[0].Seq
+	for _, o := range os {
+		if o.Seq < minSeq {
+			minSeq = o.Seq
+		}
+	}
 	var roots []string
-	roots = append(roots, o.Goal.S)
 	var hyps []Term
 	for _, a := range c.assumes {
-		if a.Seq < o.Seq {
+		if a.Seq < minSeq {
 			hyps = append(hyps, a.T)
 			roots = append(roots, a.T.S)
 		}
 	}
-	for _, e := range o.Extra {
-		hyps = append(hyps, e)
-		roots = append(roots, e.S)
+	// per-goal formulas
+	var goals []string
+	for _, o := range os {
+		var local []string
+		for _, a := range c.assumes {
+			if a.Seq >= minSeq && a.Seq < o.Seq {
+				local = append(local, a.T.S)
+				roots = append(roots, a.T.S)
+			}
+		}
+		for _, e := range o.Extra {
+			local = append(local, e.S)
+			roots = append(roots, e.S)
+		}
+		roots = append(roots, o.Goal.S)
+		if len(os) == 1 {
+			// single obligation: keep the classic shape (hypotheses as separate assertions)
+			for _, l := range local {
+				hyps = append(hyps, Term{l, sortBool})
+			}
+			goals = append(goals, o.Goal.S)
+		} else if len(local) == 0 {
+			goals = append(goals, o.Goal.S)
+		} else {
+			goals = append(goals, fmt.Sprintf("(=> (and %s true) %s)", strings.Join(local, " "), o.Goal.S))
+		}
 	}
 	need := map[string]bool{}
-	var visit func(text string)
-	visit = func(text string) {
-		for _, nm := range nameRe.FindAllString(text, -1) {
+	var visitNames func(names []string)
+	visitNames = func(names []string) {
+		for _, nm := range names {
+			if need[nm] {
+				continue
+			}
 			d, ok := c.defIdx[nm]
-			if !ok || need[nm] {
+			if !ok {
 				continue
 			}
 			need[nm] = true
 			if d.Body != "" {
-				visit(d.Body)
+				if d.deps == nil {
+					d.deps = scanNames(d.Body)
+				}
+				visitNames(d.deps)
 			}
 		}
 	}
+	visit := func(text string) { visitNames(scanNames(text)) }
 	preambleText := strings.Join(c.preamble, "\n")
 	for _, r := range roots {
 		visit(r)
 	}
+	// definitional axioms: an axiom (instance of the definition of an opaque spec function) is
+	// included only when its function symbol occurs in the goals' own cone (or in the body of
+	// an axiom already included).  Dropping axioms is always sound; it keeps queries small.
+	goalSyms := map[string]bool{}
+	seenG := map[string]bool{}
+	var visitGN func(names []string)
+	visitGN = func(names []string) {
+		for _, nm := range names {
+			if strings.HasPrefix(nm, "spec_") {
+				goalSyms[nm] = true
+				continue
+			}
+			if sym, ok := c.symOfConst[nm]; ok {
+				goalSyms[sym] = true
+			}
+			if seenG[nm] {
+				continue
+			}
+			d, ok := c.defIdx[nm]
+			if !ok {
+				continue
+			}
+			seenG[nm] = true
+			if d.Body != "" {
+				if d.deps == nil {
+					d.deps = scanNames(d.Body)
+				}
+				visitGN(d.deps)
+			}
+		}
+	}
+	visitG := func(text string) { visitGN(scanNames(text)) }
+	for _, o := range os {
+		visitG(o.Goal.S)
+		for _, e := range o.Extra {
+			visitG(e.S)
+		}
+	}
+	usedAx := make([]bool, len(c.axioms))
+	for changed := true; changed; {
+		changed = false
+		for i, a := range c.axioms {
+			if !usedAx[i] && need[a.App] && (allAxioms || goalSyms[a.Sym]) {
+				usedAx[i] = true
+				changed = true
+				hyps = append(hyps, a.T)
+				visit(a.T.S)
+				visitG(a.T.S)
+			}
+		}
+	}
 	var b strings.Builder
 	b.WriteString("(set-option :produce-models true)\n")
-	if logic != "" {
-		b.WriteString("(set-logic " + logic + ")\n")
-	}
 	b.WriteString("(declare-sort Ref 0)\n(declare-sort Str 0)\n(declare-sort Iface 0)\n(declare-sort Opq 0)\n")
 	b.WriteString("(declare-fun nil_ref () Ref)\n(declare-fun nil_iface () Iface)\n(declare-fun nil_opq () Opq)\n")
 	b.WriteString("(declare-fun strlen (Str) (_ BitVec 64))\n(declare-fun strat (Str (_ BitVec 64)) (_ BitVec 8))\n")
@@ -491,10 +786,25 @@ func (c *Ctx) emit(o *Oblig, logic string) string {
 		sort.Strings(lits)
 		fmt.Fprintf(&b, "(assert (distinct %s))\n", strings.Join(lits, " "))
 	}
+	seenH := map[string]bool{}
 	for _, h := range hyps {
+		if seenH[h.S] {
+			continue
+		}
+		seenH[h.S] = true
 		fmt.Fprintf(&b, "(assert %s)\n", h.S)
 	}
-	fmt.Fprintf(&b, "(assert (not %s))\n", o.Goal.S)
+	if len(goals) == 1 {
+		fmt.Fprintf(&b, "(assert (not %s))\n", goals[0])
+	} else {
+		fmt.Fprintf(&b, "(assert (not (and %s)))\n", strings.Join(goals, " "))
+	}
 	b.WriteString("(check-sat)\n(get-model)\n")
-	return b.String()
+	dropped := false
+	for i, a := range c.axioms {
+		if !usedAx[i] && need[a.App] {
+			dropped = true
+		}
+	}
+	return b.String(), dropped
 }
